@@ -438,6 +438,7 @@ class TimingMonitor:
         last_lin = None
         cause = {}
         entries = {}
+        waived = set()  # states entered in this transition whose records may legitimately be gone at its end
         restarted = need_zero0
         cycled = False
         engine_done = False
@@ -454,6 +455,8 @@ class TimingMonitor:
                 if api == "next_state" and in_iter:
                     tgt = args[0] if args else None
                     tgt = tgt.fields.get("name") if isinstance(tgt, Obj) else tgt
+                    # (re-entering a state discards what was recorded at its last entry: nothing to look for afterwards)
+                    waived.add(tgt)
                     if ctx == "engine":
                         if last_lin is None:
                             err("C02.T1", f"the engine moved to state '{tgt}' in an iteration without a strict 'expiry < tm' comparison having come out true on that path")
@@ -462,6 +465,8 @@ class TimingMonitor:
                             cycled = True
                     else:
                         cause[tgt] = ("request",)
+                if api == "done" and in_iter:
+                    waived.update(entries)  # a stopped machine need not keep the records of the run that ended
                 if api == "done" and in_iter and ctx == "engine":
                     engine_done = True
             elif k == "ret" and ev[1] == "execute":
@@ -510,6 +515,7 @@ class TimingMonitor:
                         if stmL != Lin(0):
                             err("C03.T2", f"state '{S}' received state_tm={stm!r} on its initial call after being entered by request/engage/fallback; expected 0", site)
                     entries[S] = (start_abs, site)
+                    waived.discard(S)
                     cause.pop(S, None)
                 elif ic is False:
                     ok = False
@@ -535,6 +541,8 @@ class TimingMonitor:
                             self.role_f0 = cands[0]
         # ---- post-state of entered states: entry time and expiry
         for S, (start_abs, site) in entries.items():
+            if S in waived:
+                continue
             f1 = [p for p in changed if _lin(slots[p]) == start_abs and not (p.count(".") == 2 and "[" not in p)]
             cell = m.fields.get("$tunable:" + S + "_duration")
             f2 = []
